@@ -8,7 +8,7 @@ from astlib import find_all, find_first, show, show_pat, method_chain
 from rules.common import flat, flatp, has, same
 
 EXPLANATION = (
-    "Static structural analysis (MIR control/data-flow facts + syntax facts of leptos_i18n/src/langid.rs and "
+    "Primary clause (R0): the negotiation functions are interpreted abstractly (rules/absint.py; nothing compiled or run) on every request list x supported list of a closed universe of tags and each outcome is compared with the property statement; the structural clauses below are used only when the code leaves the interpreter's fragment. Static structural analysis (MIR control/data-flow facts + syntax facts of leptos_i18n/src/langid.rs and "
     "locale_traits.rs); nothing executed. Decided clauses: (R1) the result vector of filter_matches is filled inside the loop "
     "over the requested languages, walked forward; any reordering operation on it (sort*, reverse, swap, rotate*) must sit "
     "inside that loop and be applied to the sub-slice that starts at the length the vector had when the current request "
@@ -407,7 +407,7 @@ def run(ctx):
 
 
 MANIFEST_ENTRY = {
-    "technique": "static analysis: MIR loop membership and slice provenance of every reordering call on the negotiation result, constant-argument order of the two matching passes, syn skeleton of the matching predicate and of find_match / lossy parsing",
-    "level_text": "Structural: the only operations that could let a later-listed language overtake an earlier one (reordering the result) are located on the CFG and shown confined to the current request's matches; pass order, provenance of pushed values and the shape of the predicate are decided from code. No tag is parsed or matched.",
+    "technique": "static analysis: abstract evaluation (rules/absint.py) of find_match / filter_matches / Locale::find_locale / find_matchs / convert_vec_str_to_langids_lossy over all request lists x supported lists of a closed universe of 11 tags (language / script / region / variant combinations), oracle computed from the property statement; structural MIR / syn rules on the same functions as fallback when the code leaves the evaluator's fragment",
+    "level_text": "Finite abstract evaluation: the negotiation code only compares subtags for equality and emptiness, so a universe with every combination of present / absent / equal / different subtags exercises every decision; the outcome of each case is compared with what the statement demands (supported-or-default, earlier request wins, exact beats less specific, list grouped in request order). ICU's tag parsing is not evaluated.",
     "level_note": "Trusted: stable sort, retain order, icu tag parsing. Not decided: matching of a concrete pair of tags.",
 }
